@@ -138,6 +138,27 @@ fn workload(dir: &str, name: &str) -> lsm_tree::Result<()> {
                 std::process::exit(7);
             }
         }
+        // write-once key, two weak-delete generations; the older weak tombstone is shadowed by the re-inserted
+        // value when the memtable is flushed with a watermark between them, then the newer pair cancels (C13)
+        "weak-shadowed" => {
+            let tree = open(dir, false)?;
+            tree.insert("a", "v0", 0);
+            tree.flush_active_memtable(0)?;
+            tree.major_compact(u64::MAX, 0)?;
+            tree.remove_weak("a", 1);
+            tree.insert("a", "v2", 2);
+            tree.remove_weak("a", 3);
+            tree.flush_active_memtable(2)?;
+            let mid = tree.get("a", SeqNo::MAX)?;
+            println!("GET a after flush {:?}", mid.as_ref().map(|v| hex(v)));
+            tree.compact(Arc::new(lsm_tree::compaction::PullDown(0, 1)), 10)?;
+            let got = tree.get("a", SeqNo::MAX)?;
+            println!("GET a after compaction {:?}", got.as_ref().map(|v| hex(v)));
+            if mid.is_some() || got.is_some() {
+                println!("DEMONSTRATED: a weakly deleted write-once key came back");
+                std::process::exit(7);
+            }
+        }
         // FIFO drop whose version GC fails (old version file replaced by a directory => unlink fails)
         "fifo-gc-fail" => {
             let tree = open(dir, false)?;
